@@ -15,7 +15,7 @@ import z3
 from . import ops
 from .ops import LAM
 from .ops import Unsupported
-from .values import (Sym, SChar, SSeq, SSet, Choice, Obj, ExcVal, Opaque, I, R, B, AI, AR, AB,
+from .values import (Sym, SChar, SSeq, SSet, SDict, RandVal, Choice, Obj, ExcVal, Opaque, I, R, B, AI, AR, AB,
                      wrap_elem, is_symbolic)
 from .sandbox import float_const_to_fraction
 
@@ -123,6 +123,16 @@ class Interp:
         self.in_spec = 0
         self.frames = []
         ops.set_raise_hook(self._raise_hook)
+        ops._card_hook = self._card_of
+
+    def _card_of(self, sset):
+        """cardinality of a symbolic set (trusted model): a fresh c >= 0 with  c == 0  <->  the set is empty"""
+        c = z3.Int(self.fresh_name('card'))
+        j = z3.Int('j!cd')
+        self.pc.append(c >= 0)
+        self.pc.append((c == 0) == z3.ForAll([j], z3.Not(z3.Select(sset.pred, j))))
+        self.trusted_used.add('len(set): fresh cardinality, zero exactly when the set is empty')
+        return c
 
     def fresh_name(self, prefix):
         n = self.counter.get(prefix, 0)
@@ -171,6 +181,10 @@ class Interp:
             inner = self.fresh_typed(prefix, ty[9:-1])
             b = z3.Bool(self.fresh_name(prefix + '.isnone'))
             return Choice([(b, None), (z3.Not(b), inner)])
+        if ty.startswith('sdict['):
+            ek = ty[6:-1]
+            nm = self.fresh_name(prefix)
+            return SDict(z3.Const(nm + '.dom', AB), z3.Const(nm + '.val', {'char': AI, 'int': AI, 'real': AR}[ek]), ek)
         if ty.startswith('rows:'):
             from .models import Stack2D
             return Stack2D([self.fresh_seq('%s.row%d' % (prefix, i), 'nd', ek) for i, ek in enumerate(ty[5:].split(','))])
@@ -521,6 +535,10 @@ class Interp:
         return ops.slice_seq(base, lo, hi)
 
     def index(self, base, idx):
+        if isinstance(base, SDict):
+            k = ops.z3int(idx)
+            ops._raise_if(z3.Not(z3.Select(base.dom, k)), 'KeyError')
+            return wrap_elem(z3.Select(base.vals, k), base.ek)
         if isinstance(base, Choice):
             return ops.map_choice(base, lambda b: self.index(b, idx))
         if isinstance(base, dict):
@@ -763,6 +781,14 @@ class Interp:
             self.dropped.add('call of %s.%s' % (base.what, attr))
             return Opaque('%s.%s()' % (base.what, attr))
         from . import models as M
+        if isinstance(base, RandVal) and attr == 'shuffle':
+            arg_node = node.args[0] if node is not None and node.args else None
+            if arg_node is None:
+                raise Unsupported('shuffle of a non-variable')
+            self.assign(arg_node, M.shuffled(self, args[0]), fr)
+            return None
+        if isinstance(base, RandVal):
+            return M.rand_method(self, fr, base, attr, args, kwargs)
         if isinstance(base, (Sym, SChar, SSeq, SSet, str, list, dict, set, tuple, frozenset, int, Fraction, RangeVal)):
             res, newbase, mutated = M.value_method(self, fr, base, attr, args, kwargs)
             if mutated:
@@ -941,6 +967,17 @@ class Interp:
             if isinstance(t.slice, ast.Slice):
                 raise Unsupported('slice assignment')
             idx = self.eval(t.slice, fr)
+            if isinstance(base, SDict) or (isinstance(base, dict) and len(base) == 0 and is_symbolic(idx) and ops.kind_of(idx) == 'int'):
+                ek = ops.elem_kind_of_value(v)
+                if ek is None:
+                    raise Unsupported('symbolic-key dictionary with non-scalar values')
+                if not isinstance(base, SDict):
+                    from .values import arr_sort
+                    base = SDict(z3.K(I, z3.BoolVal(False)), z3.K(I, ops._zero(ek)), ek)
+                k = ops.z3int(idx)
+                val = ops.char_code(v) if ek == 'char' else (ops.z3real(v) if ek == 'real' else ops.z3int(v))
+                self.assign(t.value, SDict(z3.Store(base.dom, k, z3.BoolVal(True)), z3.Store(base.vals, k, val), base.ek), fr)
+                return
             if isinstance(base, dict):
                 if is_symbolic(idx):
                     # update of a concrete-key dict at a symbolic key: every entry becomes an ite
@@ -1163,6 +1200,8 @@ class Interp:
         lo, hi, elem = self.iter_view(it)
         idx = spec.get('index', '_k')
         tag = '%s.loop%d' % (key, o)
+        for gname, gexpr in (spec.get('ghost') or {}).items():
+            fr.env[gname] = self.eval_spec(gexpr, fr)       # ghost copy of a value at loop entry
         # establish
         fr.env[idx] = lo
         self.check_invariants(spec, fr, tag, 'establish', s.lineno)
@@ -1288,6 +1327,7 @@ class Interp:
 
     lemmas_used = set()
     last_top_env = {}
+    ghost_frames = []
 
     def assume_invariants(self, spec, fr):
         for inv in spec.get('invariant', []):
@@ -1396,6 +1436,9 @@ class Interp:
                 ek = 'int' if eks <= {'int', 'bool'} else list(eks - {'int', 'bool'})[0]
                 return self.fresh_seq(name, 'list' if isinstance(v, list) else 'tuple', ek)
             raise Unsupported('cannot havoc %s (list of unknown element type): give a type in the loop spec' % name)
+        if isinstance(v, SDict):
+            nm = self.fresh_name(name)
+            return SDict(z3.Const(nm + '.dom', AB), z3.Const(nm + '.val', {'char': AI, 'int': AI, 'real': AR}[v.ek]), v.ek)
         if isinstance(v, dict) and all(not is_symbolic(k) for k in v):
             return {k: self.fresh_like(x, '%s[%s]' % (name, k)) for k, x in v.items()}
         if v is None:
